@@ -10,6 +10,13 @@ The Lean driver (`Driver/C03.lean`) answers for every case
   * whether host / pattern contain a cycle (scope of known finding K2).
 C03 fails only on `c03_missed`; C04 fails on `c04_not_embedding` outside K2's scope and on
 `c04_false_negative_acyclic`.
+
+ENTRY POINTS (tags entry:*): `map_anchored_subgraph`, the public `map_subgraph` with an explicit `subgraph_anchor`
+(keyword / positional, anchor 0 included, pattern ids not starting at 0 — the answer must be exactly the one-element
+list of the anchored answer: clause `c04_result_shape`) and without one (one entry per pattern node, each judged for
+its own anchor), `map_subgraph_to_graph`.  INPUT FORMS (tags form:*, `apply_form`): extra node / edge attributes, numpy
+integers as node ids, `nx.freeze`, sub-graph views of a larger graph, on host and/or pattern; the wire form is read off
+the variant object, the answer is judged by the same clauses and compared with the plain form's.
 """
 from __future__ import annotations
 
@@ -258,6 +265,120 @@ def impl_unanchored(H, P, margs):
     return bool(map_subgraph_to_graph(H, P, mk_mapper(margs)))
 
 
+def impl_mapsub(H, a, P, pa, margs, how):
+    """the public entry point `fgutils.algorithm.map_subgraph`, with (`how` = "keyword" / "positional") or without
+    (`pa` None; `how` = "omitted" / "none") an explicit pattern anchor -> [[flag, sorted pair set (only when flag)], …]"""
+    from fgutils.algorithm import map_subgraph
+    mp = mk_mapper(margs)
+    if pa is None:
+        res = map_subgraph(H, a, P, mp) if how == "omitted" else map_subgraph(H, a, P, mp, subgraph_anchor=None)
+    elif how == "positional":
+        res = map_subgraph(H, a, P, mp, pa)
+    else:
+        res = map_subgraph(H, a, P, mp, subgraph_anchor=pa)
+    out = []
+    for ok, mapping in res:
+        out.append([bool(ok), [list(x) for x in sorted({(int(h), int(p)) for h, p in mapping})] if ok else []])
+    return out
+
+
+# ---------------------------------------------------------------------------
+# FORMS of the same input graph (the matcher reads `symbol` / `bond` only and never writes)
+# ---------------------------------------------------------------------------
+FORM_KINDS = ("extra_attrs", "numpy_ids", "frozen", "view")
+_NODE_EXTRA = [("charge", [0, 1, -1]), ("hcount", [0, 1, 2, 3]), ("aam", [1, 2, 7, 40]), ("is_labeled", [False]), ("labels", [[]]),
+               ("in_ring", [True, False]), ("color", ["red", "blue"]), ("pos", [(0.0, 1.5), (2.0, 0.5)])]
+_EDGE_EXTRA = [("in_ring", [True, False]), ("order", [1, 2, (1, 2)]), ("standard_order", [0, 1, -1]), ("weight", [0.5, 1.0, 2.5]),
+               ("stereo", ["E", "Z", None]), ("betweenness", [0.1, 0.25, 0.6]), ("label", ["a", "b"])]
+
+
+def apply_form(g, kind, seed):
+    """one variant of the graph object: same nodes, symbols, bonds.  Deterministic in (g, kind, seed) for the replay."""
+    import copy
+    import numpy as np
+    rng = random.Random(seed)
+    if kind == "extra_attrs":
+        h = copy.deepcopy(g)
+        nk = rng.sample(_NODE_EXTRA, rng.choice([0, 1, 2, 3]))
+        ek = rng.sample(_EDGE_EXTRA, rng.choice([1, 1, 2, 3]))
+        p_some = rng.choice([1.0, 1.0, 0.6])
+        for n in h.nodes:
+            for name, vals in nk:
+                if rng.random() < p_some:
+                    h.nodes[n][name] = rng.choice(vals)
+        for u, v in h.edges:
+            for name, vals in ek:
+                if rng.random() < p_some:
+                    h.edges[u, v][name] = rng.choice(vals)
+        return h
+    if kind == "numpy_ids":
+        ty = rng.choice([np.int64, np.int64, np.int32, np.intp])
+        h = nx.Graph()
+        for n, d in g.nodes(data=True):
+            h.add_node(ty(n), **copy.deepcopy(d))
+        for u, v, d in g.edges(data=True):
+            h.add_edge(ty(u), ty(v), **copy.deepcopy(d))
+        return h
+    if kind == "frozen":
+        return nx.freeze(copy.deepcopy(g))
+    if kind == "view":
+        big = copy.deepcopy(g)
+        own = list(g.nodes)
+        nxt = (max([int(x) for x in own]) + 1) if own else 0
+        junk = []
+        for _ in range(rng.choice([1, 2, 3])):
+            j = nxt if rng.random() < 0.7 or not own else min(int(x) for x in own) - 1 - len(junk)
+            nxt += 1
+            big.add_node(j, symbol=rng.choice(["C", "O", "N", "R", "H"]))
+            if own and rng.random() < 0.85:
+                big.add_edge(j, rng.choice(own), bond=rng.choice([1, 1, 2, 1.5]))
+            if junk and rng.random() < 0.4:
+                big.add_edge(j, rng.choice(junk), bond=1)
+            junk.append(j)
+        how = rng.choice(["subgraph", "subgraph", "subgraph_view", "frozen_subgraph"])
+        if how == "subgraph_view":
+            keep = set(own)
+            return nx.subgraph_view(big, filter_node=lambda n: n in keep)
+        if how == "frozen_subgraph":
+            return nx.freeze(big).subgraph(own)
+        return big.subgraph(own)
+    raise ValueError(kind)
+
+
+def apply_forms(g, forms):
+    for kind, seed in forms:
+        g = apply_form(g, kind, seed)
+    return g
+
+
+def choose_forms(rng, p_each=0.12):
+    """every kind independently with probability `p_each` (so 10-20% of the cases go through each alternative, and
+    combinations occur); `frozen` last (a frozen graph cannot be decorated)"""
+    forms = [[k, rng.randrange(1 << 30)] for k in FORM_KINDS if rng.random() < p_each]
+    forms.sort(key=lambda f: f[0] == "frozen")
+    return forms
+
+
+def with_forms(rng, H, P, p_each=0.12):
+    """-> (H', P', meta, tags): variants of host and/or pattern"""
+    side = rng.choice(["host", "host", "pattern", "both"])
+    fh = choose_forms(rng, p_each) if side in ("host", "both") else []
+    fp = choose_forms(rng, p_each) if side in ("pattern", "both") else []
+    if rng.random() < 0.5 and side == "both" and fh:
+        # the same decoration on both sides (equal seeds give equal attribute names; the values still differ per edge)
+        fp = [list(f) for f in fh]
+    tags = tuple(sorted({"form:%s:%s" % (k, w) for w, fs in (("host", fh), ("pattern", fp)) for k, _ in fs})) or ("form:plain",)
+    return apply_forms(H, fh), apply_forms(P, fp), {"forms": {"host": fh, "pattern": fp}}, tags
+
+
+def int_nodes(g):
+    return [(int(n), s) for n, s in g.nodes(data="symbol")]
+
+
+def int_edges(g):
+    return [(int(u), int(v), b) for u, v, b in g.edges(data="bond")]
+
+
 class MatchCase(Case):
     """anchored case: correspondence on what the property can observe — C03: the flag; C04: the
     flag and, on success, the pair set (`impl`).  The driver gets the complete return value
@@ -290,19 +411,51 @@ def anchored_case(prop, H, a, P, pa, margs, tags=(), meta=None, in_domain=True):
     if prop == "C04" and not connected:
         dom = False                             # C04 speaks about connected patterns
     nontrivial = P.number_of_nodes() >= 3 and H.number_of_nodes() >= 3
-    tg = tuple(tags) + ("anchored", "host_cyclic" if hc else "host_acyclic", "pattern_cyclic" if pc else "pattern_acyclic",
+    tg = tuple(tags) + ("anchored", "entry:map_anchored_subgraph", "host_cyclic" if hc else "host_acyclic", "pattern_cyclic" if pc else "pattern_acyclic",
                         "wildcard" if margs[0] else "no_wildcard", "ignore_case" if margs[1] else "case_sensitive",
                         "cmtn" if margs[2] else "cmtn=[]", "|P|=%d" % P.number_of_nodes())
     m = dict(meta or {})
-    m.update({"host_nodes": list(H.nodes(data="symbol")), "host_edges": list(H.edges(data="bond")), "anchor": a,
-              "pattern_nodes": list(P.nodes(data="symbol")), "pattern_edges": list(P.edges(data="bond")),
-              "pattern_anchor": pa, "mapper": list(margs), "py_host_cycle": hc, "py_pattern_cycle": pc})
+    m.update({"host_nodes": int_nodes(H), "host_edges": int_edges(H), "anchor": int(a),
+              "pattern_nodes": int_nodes(P), "pattern_edges": int_edges(P),
+              "pattern_anchor": int(pa), "mapper": list(margs), "py_host_cycle": hc, "py_pattern_cycle": pc})
     if isinstance(out, ImplError):
         c = MatchCase(req, out, None, in_domain=dom, meta=m, tags=tg + ("raised",))
     else:
         c = MatchCase(req, [out[0], out[1] if prop == "C04" else []], out, in_domain=dom, meta=m,
                       tags=tg + ("flag=1" if out[0] else "flag=0",))
     if nontrivial:
+        c.nontrivial_key = key_of(sx(req))
+    return c
+
+
+def mapsub_case(prop, H, a, P, pa, margs, how, tags=(), meta=None, in_domain=True):
+    """the public entry point `map_subgraph`: `pa` None = no pattern anchor given (one entry per pattern node),
+    otherwise the explicit `subgraph_anchor` (keyword or positional) — the answer must be exactly the one-element
+    list of the anchored answer"""
+    out = call_impl(impl_mapsub, H, a, P, pa, margs, how)
+    req = [Atom(prop), Atom("mapsub"), enc_mapper(*margs), enc_graph(H), int(a), enc_graph(P), None if pa is None else int(pa)]
+    hc, pc = has_cycle(H), has_cycle(P)
+    connected = P.number_of_nodes() > 0 and nx.is_connected(P)
+    dom = in_domain and (not margs[2] or prop == "C04") and P.number_of_nodes() > 0
+    if prop == "C04" and not connected:
+        dom = False
+    entry = "entry:map_subgraph(no_anchor:%s)" % how if pa is None else "entry:map_subgraph(subgraph_anchor:%s)" % how
+    tg = tuple(tags) + ("mapsub", entry, "host_cyclic" if hc else "host_acyclic", "pattern_cyclic" if pc else "pattern_acyclic",
+                        "wildcard" if margs[0] else "no_wildcard", "ignore_case" if margs[1] else "case_sensitive",
+                        "cmtn" if margs[2] else "cmtn=[]", "|P|=%d" % P.number_of_nodes())
+    if pa is not None and int(pa) == 0:
+        tg += ("subgraph_anchor=0",)
+    m = dict(meta or {})
+    m.update({"host_nodes": int_nodes(H), "host_edges": int_edges(H), "anchor": int(a),
+              "pattern_nodes": int_nodes(P), "pattern_edges": int_edges(P),
+              "mapsub_pattern_anchor": None if pa is None else int(pa), "mapsub_how": how,
+              "mapper": list(margs), "py_host_cycle": hc, "py_pattern_cycle": pc})
+    if isinstance(out, ImplError):
+        c = MatchCase(req, out, None, in_domain=dom, meta=m, tags=tg + ("raised",))
+    else:
+        c = MatchCase(req, out if prop == "C04" else [[f, []] for f, _ in out], out, in_domain=dom, meta=m,
+                      tags=tg + ("flag=1" if any(f for f, _ in out) else "flag=0", "entries=%s" % (len(out) if len(out) < 4 else ">=4")))
+    if P.number_of_nodes() >= 3 and H.number_of_nodes() >= 3:
         c.nontrivial_key = key_of(sx(req))
     return c
 
@@ -315,12 +468,12 @@ def unanchored_case(prop, H, P, margs, tags=(), meta=None, in_domain=True):
     dom = in_domain and not margs[2] and ids_ok and P.number_of_nodes() > 0
     if prop == "C04" and not (P.number_of_nodes() > 0 and nx.is_connected(P)):
         dom = False
-    tg = tuple(tags) + ("unanchored", "host_cyclic" if hc else "host_acyclic", "pattern_cyclic" if pc else "pattern_acyclic",
+    tg = tuple(tags) + ("unanchored", "entry:map_subgraph_to_graph", "host_cyclic" if hc else "host_acyclic", "pattern_cyclic" if pc else "pattern_acyclic",
                         "wildcard" if margs[0] else "no_wildcard", "ignore_case" if margs[1] else "case_sensitive",
                         "cmtn" if margs[2] else "cmtn=[]", "|P|=%d" % P.number_of_nodes())
     m = dict(meta or {})
-    m.update({"host_nodes": list(H.nodes(data="symbol")), "host_edges": list(H.edges(data="bond")),
-              "pattern_nodes": list(P.nodes(data="symbol")), "pattern_edges": list(P.edges(data="bond")),
+    m.update({"host_nodes": int_nodes(H), "host_edges": int_edges(H),
+              "pattern_nodes": int_nodes(P), "pattern_edges": int_edges(P),
               "mapper": list(margs), "py_host_cycle": hc, "py_pattern_cycle": pc})
     if not isinstance(out, ImplError):
         tg += ("flag=1" if out else "flag=0",)
@@ -333,9 +486,9 @@ def unanchored_case(prop, H, P, margs, tags=(), meta=None, in_domain=True):
 # ---------------------------------------------------------------------------
 # corpus (fixed regression inputs, first on every run)
 # ---------------------------------------------------------------------------
-def parse(s):
+def parse(s, idx_offset=0):
     from fgutils.parse import parse as p
-    return p(s)
+    return p(s, idx_offset=idx_offset) if idx_offset else p(s)
 
 
 K2_WITNESSES = [("C1CC1", 0, "C(CC)CC", 0), ("CCCCC", 2, "C1CC1", 0)]
@@ -373,6 +526,26 @@ def corpus_cases(prop):
               [(0, 1, 1), (0, 2, 1), (1, 3, 1), (2, 4, 1), (4, 5, 1)])
     P = build([(0, "C"), (1, "C"), (2, "C"), (3, "N")], [(0, 1, 1), (1, 2, 1), (2, 3, 1)])
     cases.append(anchored_case(prop, H, 0, P, 0, plain, tags=("corpus", "wrong_branch")))
+    # the public entry point map_subgraph with an explicit pattern anchor 0 / on a pattern whose ids do not start at 0 /
+    # without an anchor
+    co = parse("CO")
+    co_shifted = nx.relabel_nodes(co, {0: 1, 1: 0}, copy=True)          # node order [1, 0]
+    for hs, a, pat, pa in [("OC", 0, co, 0), ("OC", 0, co_shifted, 0), ("OC", 0, co, 1), ("CC(=O)OC", 1, parse("RC(=O)OR"), 0),
+                           ("CC(=O)OC", 3, parse("RC(=O)OR"), 3), ("CCO", 2, parse("CO", idx_offset=4), 5)]:
+        for how in ("keyword", "positional"):
+            cases.append(mapsub_case(prop, parse(hs), a, pat, pa, plain, how, tags=("corpus", "corpus:map_subgraph")))
+        cases.append(mapsub_case(prop, parse(hs), a, pat, None, plain, "omitted", tags=("corpus", "corpus:map_subgraph")))
+    # hosts / patterns that carry attributes the matcher has no business with, frozen graphs, views, numpy ids
+    k = 0
+    for hs, a, ps, pa in [("CCO", 2, "CO", 1), ("CC(=O)O", 2, "RC(=O)O", 2), ("CC(=O)OC", 1, "RC(=O)OR", 1), ("NCC(O)C(O)CN", 2, "C(O)C(O)", 0)]:
+        for kind in FORM_KINDS:
+            for side in ("host", "pattern", "both"):
+                k += 1
+                fh = [[kind, 1000 + k]] if side != "pattern" else []
+                fp = [[kind, 2000 + k]] if side != "host" else []
+                cases.append(anchored_case(prop, apply_forms(parse(hs), fh), a, apply_forms(parse(ps), fp), pa, plain,
+                                           tags=("corpus", "corpus:forms", "form:%s:%s" % (kind, side)),
+                                           meta={"forms": {"host": fh, "pattern": fp}}))
     # corpus directory (minimised past failures)
     d = os.path.join(common.CORPUS_DIR, "C03")
     if os.path.isdir(d):
@@ -486,8 +659,15 @@ def gen_cases(prop, rng, n):
                 P.nodes[rng.choice(list(P.nodes))]["symbol"] = rng.choice(["N", "O", "C", "R"])
             cases.append(anchored_case(prop, H, a0, P, pa0, margs, tags=tags + ("after_in_place_edit",)))
             continue
+        # FORMS of the same input (extra node / edge attributes, numpy integers as node ids, frozen graphs, sub-graph
+        # views) on host and/or pattern: the matcher must answer as for the plain form
+        H2, P2, fmeta, ftags = with_forms(rng, H, P)
+        formed = ftags != ("form:plain",)
         if unanch:
-            cases.append(unanchored_case(prop, H, P, margs, tags=tags))
+            c = unanchored_case(prop, H2, P2, margs, tags=tags + ftags, meta=fmeta)
+            if formed:
+                note_plain(c, call_impl(impl_unanchored, H, P, margs))
+            cases.append(c)
             continue
         if emb is not None and rng.random() < 0.65:
             pa = rng.choice(list(emb))
@@ -495,8 +675,57 @@ def gen_cases(prop, rng, n):
         else:
             pa = rng.choice(list(P.nodes))
             a = rng.choice(list(H.nodes))
-        cases.append(anchored_case(prop, H, a, P, pa, margs, tags=tags))
+        # ENTRY POINTS: map_anchored_subgraph (72%), the public map_subgraph with an explicit pattern anchor (16%,
+        # keyword / positional; anchor 0 wherever the pattern has a node 0) and without one (12%)
+        x = rng.random()
+        if x < 0.72:
+            c = anchored_case(prop, H2, a, P2, pa, margs, tags=tags + ftags, meta=fmeta)
+            if formed:
+                plain = call_impl(impl_anchored, H, a, P, pa, margs)
+                note_plain(c, plain if isinstance(plain, ImplError) else plain[0])
+        else:
+            if x < 0.88:
+                if 0 in P.nodes and rng.random() < 0.5:
+                    pa = 0
+                    if emb is not None and rng.random() < 0.6:
+                        a = emb[0]
+                how = rng.choice(["keyword", "positional"])
+                c = mapsub_case(prop, H2, a, P2, pa, margs, how, tags=tags + ftags, meta=fmeta)
+            else:
+                pa, how = None, rng.choice(["omitted", "none"])
+                c = mapsub_case(prop, H2, a, P2, None, margs, how, tags=tags + ftags, meta=fmeta)
+            if formed:
+                plain = call_impl(impl_mapsub, H, a, P, pa, margs, how)
+                note_plain(c, plain if isinstance(plain, ImplError) else [f for f, _ in plain])
+        cases.append(c)
     return cases
+
+
+def flags_of(c):
+    """the success flag(s) of a case's implementation answer"""
+    if isinstance(c.impl, ImplError):
+        return ("raised", c.impl.kind)
+    if c.req[1] == "unanchored":
+        return c.impl
+    if c.req[1] == "mapsub":
+        return [f for f, _ in c.impl]
+    return c.impl[0]
+
+
+def note_plain(c, plain):
+    """record whether the answer on the variant form equals the answer on the plain form of the same graphs (flags;
+    the pair set of a success may legitimately depend on the adjacency order).  The verdict comes from the
+    specification applied to the variant's answer; this is the distribution for the evidence."""
+    if isinstance(plain, ImplError):
+        plain = ("raised", plain.kind)
+    mine = flags_of(c)
+    if isinstance(mine, list) and isinstance(plain, list):
+        # map_subgraph without an anchor: one entry per pattern node in the PATTERN's node order, which a view may change
+        mine, plain = sorted(mine), sorted(plain)
+    same = mine == plain
+    c.meta["plain_form_flags"] = plain
+    c.meta["equals_plain_form"] = same
+    c.tags = tuple(c.tags) + (("form:answer_equals_plain_form",) if same else ("form:ANSWER_DIFFERS_FROM_PLAIN_FORM",))
 
 
 # exhaustive enumeration: all connected graphs with <= 5 nodes (up to isomorphism) x all labelings
@@ -675,6 +904,10 @@ def oracle_crosscheck(r, outs, limit):
         m = o.case.meta
         if not o.ok_reply or "anchor" not in m or m["mapper"][2]:
             continue
+        if "pattern_anchor" not in m:
+            if m.get("mapsub_pattern_anchor") is None:
+                continue
+            m = dict(m, pattern_anchor=m["mapsub_pattern_anchor"])
         P = build(m["pattern_nodes"], m["pattern_edges"])
         if P.number_of_nodes() == 0 or not nx.is_connected(P):
             continue
@@ -733,6 +966,9 @@ def run(prop, tier, seed):
     r.extra_cov["oracle_crosschecked_against_networkx_vf2"] = xchecked
     r.extra_cov["oracle_disagreements"] = n_bad_oracle
     r.extra_cov["cycle_oracle_vs_networkx_disagreements"] = bad_cycle
+    r.extra_cov["cases_by_entry_point"] = {k[len("tag:entry:"):]: v for k, v in sorted(r.dist.items()) if k.startswith("tag:entry:")}
+    r.extra_cov["cases_by_input_form"] = {k[len("tag:form:"):]: v for k, v in sorted(r.dist.items()) if k.startswith("tag:form:")}
+    r.extra_cov["form_answers_differing_from_plain_form"] = r.dist.get("tag:form:ANSWER_DIFFERS_FROM_PLAIN_FORM", 0)
     r.assumptions = [
         "networkx Graph enters the model as insertion-ordered node list + insertion-ordered adjacency rows (Model/Graph.lean); itertools.permutations order is modelled by Perm.arrangements",
         "hosts are limited to degree <= %d and cliques to <= 7 nodes (patterns on cliques to <= 5 nodes): the implementation enumerates all d! permutations of the unvisited host neighbours per call and walks every simple path of a dense pattern" % MAX_HOST_DEGREE,
@@ -761,7 +997,11 @@ def run(prop, tier, seed):
         rule="hosts: random trees / rings / fused rings / trees+chords (3-12 nodes, degree <= 6), cliques 3-7, 1-4 symbols, arbitrary node ids (anchored) "
              "or 0..n-1 (un-anchored), shuffled insertion order; patterns: random connected sub-structures of the host with symbols blurred to R / case-flipped, "
              "near misses (one bond or symbol changed), unrelated trees/rings/cliques/stars, disconnected; mapper: wildcard in {R, None} x ignore_case x "
-             "can_map_to_nothing (8%, out of domain); non-trivial = host and pattern with >= 3 nodes, distinct by request; thorough adds all pattern/host pairs "
+             "can_map_to_nothing (8%, out of domain); ENTRY POINTS: map_anchored_subgraph 72% / map_subgraph with explicit subgraph_anchor 16% (keyword or positional, anchor 0 "
+             "wherever the pattern has a node 0, pattern ids not starting at 0) / map_subgraph without anchor 12% of the anchored cases, map_subgraph_to_graph every 4th case "
+             "(tags entry:*); INPUT FORMS on host and/or pattern, each kind in 12% of the cases, combinable (tags form:*): extra node / edge attributes, numpy integers as "
+             "node ids, nx.freeze, sub-graph views of a larger graph — the answer is judged by the same clauses and compared with the plain form's (form:answer_equals_plain_form); "
+             "non-trivial = host and pattern with >= 3 nodes, distinct by request; thorough adds all pattern/host pairs "
              "over connected graphs <= 5 nodes x 2 symbols (un-anchored; all anchor pairs up to 3 nodes)",
         checker_cmd="cd lean && lake build " + " ".join(PROOFS) + " && lake env lean FGVerif/Audit/%s.lean" % prop,
         explanation="theorems in lean/FGVerif/Proofs/{C03Perm,C03,C03Oracle,C04}.lean about Model/Subgraph.lean; model tied to fgutils.algorithm.subgraph by differential testing; "
@@ -810,10 +1050,21 @@ def replay(prop, path):
     j = json.load(open(path))
     req = common.parse_sx(j["request_line"])
     r = Run(prop, "replay", 0)
+    meta = j.get("meta") or {}
+    forms = meta.get("forms") or {"host": [], "pattern": []}
+    if forms["host"] or forms["pattern"]:
+        print("input forms: host %s, pattern %s (re-applied to the recorded graphs)" % (forms["host"], forms["pattern"]))
+    fh = lambda g: apply_forms(g, forms["host"])
+    fp = lambda g: apply_forms(g, forms["pattern"])
     if req[1] == "anchored":
-        c = anchored_case(prop, dec_graph(req[3]), int(req[4]), dec_graph(req[5]), int(req[6]), dec_mapper(req[2]))
+        c = anchored_case(prop, fh(dec_graph(req[3])), int(req[4]), fp(dec_graph(req[5])), int(req[6]), dec_mapper(req[2]))
+    elif req[1] == "mapsub":
+        pa = None if req[6] == "_" else int(req[6])
+        print("entry point: fgutils.algorithm.map_subgraph, subgraph_anchor %s (%s)" % (pa, meta.get("mapsub_how")))
+        c = mapsub_case(prop, fh(dec_graph(req[3])), int(req[4]), fp(dec_graph(req[5])), pa, dec_mapper(req[2]),
+                        meta.get("mapsub_how") or ("omitted" if pa is None else "keyword"))
     else:
-        c = unanchored_case(prop, dec_graph(req[3]), dec_graph(req[4]), dec_mapper(req[2]))
+        c = unanchored_case(prop, fh(dec_graph(req[3])), fp(dec_graph(req[4])), dec_mapper(req[2]))
     c.in_domain = True
     outs = r.evaluate([c], classify_known=make_classifier(prop))
     o = outs[0]
